@@ -81,8 +81,17 @@ def real_cli(case):
             argv = ["motif_extractor", "--dbn", path]
         else:
             path = os.path.join(d, "in.bpseq")
+            # the file in one of several legal layouts (chosen by the length, so that a replay repeats it): as printed,
+            # tab-separated, or with right-aligned columns (data lines then start with blanks)
+            rows = [(e.index_, e.sequence, e.pair) for e in b.entries]
+            layout = len(seq) % 3
             with open(path, "w") as f:
-                f.write(str(b) + "\n")
+                if layout == 0:
+                    f.write(str(b) + "\n")
+                elif layout == 1:
+                    f.write("".join("%d\t%s\t%d\n" % r for r in rows))
+                else:
+                    f.write("".join("%5d %s %5d\n" % r for r in rows))
             argv = ["motif_extractor", "--bpseq", path]
         argv += (["--remove-isolated"] if rm_iso else []) + (["--remove-pseudoknots"] if rm_pk else [])
         buf = io.StringIO()
